@@ -96,3 +96,8 @@ uint32_t* X___errno_location(void){ return &vrt_errno; }
 /* namespace-scope objects with destructors: registration is a no-op (harness processes never run exit handlers that matter) */
 uint8_t G___dso_handle = 0;
 uint32_t X___cxa_atexit(void* f, uint8_t* o, uint8_t* d){ (void)f; (void)o; (void)d; return 0; }
+
+/* function-local statics with dynamic initialisation (sequential model): the guard's first byte says "initialised" */
+uint32_t X___cxa_guard_acquire(uint64_t* g){ return *(uint8_t*)g == 0; }
+void X___cxa_guard_release(uint64_t* g){ *(uint8_t*)g = 1; }
+void X___cxa_guard_abort(uint64_t* g){ (void)g; }
